@@ -258,6 +258,13 @@ class UnitsExecutor(Executor):
             s.frames.pop()
         return res
 
+    def apply_contract(self, st, c, args, kwargs, node):
+        res = super().apply_contract(st, c, args, kwargs, node)
+        if not res:
+            # a callee contract whose normal post-state is infeasible would make everything after the call vacuous
+            raise Unsupported(f"{self.loc(node)} call of {c.target}: normal post-state infeasible (vacuity guard)")
+        return res
+
     # ------------------------------------------------- abstract instances --
     def schema(self, cls):
         m = self.class_module(cls)
@@ -677,6 +684,10 @@ class UnitsExecutor(Executor):
             return [(st, NONE)]
         if name == "copy":
             return [(st, self.new_alist(st, sq))]
+        if name == "clear":
+            self.note_store(st, obj.ref, node)
+            st.heap[obj.ref] = HeapObj("alist", VSeq(z3.IntVal(0), sq.elem, sq.ekind), None, o.fresh)
+            return [(st, NONE)]
         raise Unsupported(f"{self.loc(node)} {name} on an abstract list")
 
     def list_method(self, st, obj, name, args, kwargs, node):
